@@ -1,7 +1,10 @@
-import PsV.Model.Fit
+import PsV.Model.FitEntry
 import PsV.Driver.Common
-/-! Driver for the C13 correspondence: parses a case line of harness/fit_harness.cpp, runs `PsV.Fit.fit repaired`
-    and `PsV.Fit.cGlamfit repaired` and prints the verdict in the harness' vocabulary. -/
+/-! Driver for the C13 correspondence: parses a case line of harness/fit_harness.cpp, runs `PsV.Fit.fitEntry repaired head`
+    (the whole member function: occupied-table check, sanity block, width-aware index arithmetic, storage guard) and
+    `PsV.Fit.cGlamfitEntry repaired head`, and prints the verdict in the harness' vocabulary:
+    `<verdict on an empty table> pop=<verdict on a populated table> gf=<table after a GLAM failure> nowrap=<NoWrapB>
+     ud=<UnderdeterminedB> c=<C return> cnull=..`. -/
 namespace PsV.Driver.C13
 open PsV.Fit PsV.Driver
 
@@ -95,6 +98,11 @@ def shapeStr (s : Shape) : String :=
 /-- the C caller's arrays are the C++ containers; the wrapper is applicable when its views reproduce the arguments -/
 def cOf (a : Args) : CArgs := ⟨a.data, a.orders, a.knots, a.smoothNZ, a.penalty, a.monodim⟩
 
+/-- the populated table the harness uses for its second call (1-d, order 1, knots 0..3, two coefficients) -/
+def popShape : Shape := ⟨1, [1], [4], [2], [1], [(some 0, some 0)]⟩
+
+def b01 (b : Bool) : String := if b then "1" else "0"
+
 def handle (ws : List String) : String :=
   match parse ws with
   | none => "bad-input"
@@ -104,15 +112,28 @@ def handle (ws : List String) : String :=
       let nd := a.data.ndim
       if a.orders.length == nd && a.knots.length == nd && a.smoothNZ.length == nd && a.penalty.length == nd
           && (cOf a).view == a then
-        let r := cGlamfit repaired false false (cOf a) true none
-        let n1 := (cGlamfit repaired true false (cOf a) true none).1
-        let n2 := (cGlamfit repaired false true (cOf a) true none).1
-        s!" c={r.1} cnull={n1}{n2}"
+        let r := cGlamfitEntry repaired head false false (cOf a) .done none
+        let n1 := (cGlamfitEntry repaired head true false (cOf a) .done none).1
+        let n2 := (cGlamfitEntry repaired head false true (cOf a) .done none).1
+        let rg := cGlamfitEntry repaired head false false (cOf a) .glamFailed none
+        s!" c={r.1} cgf={rg.1}{if rg.2.isNone then "e" else "b"} cnull={n1}{n2}"
       else " c=na"
-    match fit repaired a true none with
-    | (.ok, some s) => "ok shape " ++ shapeStr s ++ cpart
-    | (.reject e, none) => "reject " ++ errStr e ++ cpart
-    | (.fault f, _) => "fault " ++ (reprStr f).replace " " "_" ++ cpart
+    -- the same call on a populated table
+    let pop := match fitEntry repaired head a .done (some popShape) with
+      | (.occupied, some s) => if s == popShape then "occupied" else "occupied-CHANGED"
+      | (.arg e, some s) => (if s == popShape then "reject:" else "reject-CHANGED:") ++ (errStr e).replace " " "_"
+      | (.ok, _) => "ok"
+      | _ => "other"
+    -- … and on an empty one when glamfit_complex fails
+    let gf := match fitEntry repaired head a .glamFailed none with
+      | (.glam, none) => "empty"
+      | (.glam, some _) => "built"
+      | _ => "na"
+    let extra := s!" pop={pop} gf={gf} nowrap={b01 (NoWrapB a)} ud={b01 (UnderdeterminedB a)}"
+    match fitEntry repaired head a .done none with
+    | (.ok, some s) => "ok shape " ++ shapeStr s ++ extra ++ cpart
+    | (.arg e, none) => "reject " ++ errStr e ++ extra ++ cpart
+    | (.fault f, _) => "fault " ++ (reprStr f).replace " " "_" ++ extra ++ cpart
     | _ => "model-inconsistent"
 
 end PsV.Driver.C13
